@@ -90,6 +90,9 @@ SPECS = [
     dict(file="admm/unique_values.py", func="locations_index_slices",
          params={"block_id": "int", "row_in_block": "int", "col_in_block": "int", "block_size": "int",
                  "num_blocks": "int"}, ret=("tuple", ("list", "int"), ("list", "int"))),
+    dict(file="admm/solver.py", func="soft_threshold_prox",
+         params={"scaled_point_sum": "scalar", "lambda_sum": "scalar", "rho_times_r": "scalar"}, ret="scalar",
+         field=True),
     dict(file="cluster_label_assignment.py", func="assign_point_cluster_labels",
          params={"label_assignment_cost": "arr2", "label_switching_cost": "sov"},
          ret=("tuple", ("list", "int"), "scalar"), scalar=True),
@@ -254,6 +257,13 @@ class FuncTranslator:
     def unify_num(self, l, lt, r, rt):
         if lt == rt:
             return l, r, lt
+        if {lt, rt} == {"int", "scalar"} and self.spec.get("field"):
+            # Python promotes the int operand to float
+            if lt == "int":
+                l = f"(({l} : Int) : α)"
+            else:
+                r = f"(({r} : Int) : α)"
+            return l, r, "scalar"
         if {lt, rt} == {"int", "rat"}:
             if lt == "int":
                 l = f"(({l} : Int) : Rat)"
@@ -278,6 +288,11 @@ class FuncTranslator:
                 return f"(Py.broadcastAdd {l} {r})", "arr1"
         if op is ast.Mult and islist(lt) and rt == "int":
             return f"(Py.repeatList {l} {r})", lt
+        if self.spec.get("field") and op in (ast.Add, ast.Sub, ast.Mult, ast.Div) and "scalar" in (lt, rt) \
+                and lt in ("int", "scalar") and rt in ("int", "scalar"):
+            sym = {ast.Add: "+", ast.Sub: "-", ast.Mult: "*", ast.Div: "/"}[op]
+            l, r, _ = self.unify_num(l, lt, r, rt)
+            return f"({l} {sym} {r})", "scalar"
         if op in (ast.Add, ast.Sub, ast.Mult):
             sym = {ast.Add: "+", ast.Sub: "-", ast.Mult: "*"}[op]
             if lt in ("int", "rat") and rt in ("int", "rat"):
@@ -411,6 +426,13 @@ class FuncTranslator:
             if t == "int":
                 return s, "int"
             raise Unsupported("int() of " + str(t))
+        if name in ("max", "min") and len(args) == 2 and not kw:
+            a, at = self.expr(args[0])
+            b, bt = self.expr(args[1])
+            a, b, t = self.unify_num(a, at, b, bt)
+            if t not in ("scalar", "int"):
+                raise Unsupported(f"{name} of {t}")
+            return f"(Py.{name}2 {a} {b})", t
         if name == "len" and len(args) == 1:
             s, t = self.expr(args[0])
             if isinstance(t, tuple) and t[0] == "list":
@@ -713,7 +735,13 @@ class FuncTranslator:
         self.env = saved
         for n in assigned:
             if envb.get(n) != envo.get(n):
-                raise Unsupported(f"type of {n} differs between branches")
+                if self.spec.get("field") and {envb.get(n), envo.get(n)} == {"int", "scalar"}:
+                    # Python: the variable holds an int on one path and a float on the other; numerically the same value
+                    tb_or_to = tb if envb.get(n) == "int" else to
+                    tb_or_to[-1] = self._cast_tail(tb_or_to[-1], assigned, n)
+                    envb[n] = envo[n] = "scalar"
+                else:
+                    raise Unsupported(f"type of {n} differs between branches")
             self.env[n] = envb[n]
         self.tmp += 1
         res = f"r_{self.tmp}"
@@ -724,6 +752,12 @@ class FuncTranslator:
         lines[-1] += ")"
         lines += self.unpack(assigned, res, pad)
         return lines
+
+    def _cast_tail(self, tail_line, names, n):
+        """the tuple of branch results: cast the int-typed variable `n` to the scalar type"""
+        pad = tail_line[:len(tail_line) - len(tail_line.lstrip())]
+        parts = [f"(({x} : Int) : α)" if x == n else x for x in names]
+        return pad + self.tuple_of(parts)
 
     # ---- whole function
     def translate(self):
@@ -763,6 +797,8 @@ def _parse_for(t, tok, var):
         return f"let {var} ← parseInt? {tok}", var
     if t == ("list", "int"):
         return f"let {var} ← parseInts? {tok}", var
+    if t == "scalar":
+        return f"let {var} ← parseRat? {tok}", var
     if t == "arr2":
         return (f"let {var} ← parseRatss? {tok}",
                 f"(Py.Arr2.ofLists {var} (({var}.headD []).length) : Py.Arr2 Rat)")
@@ -777,7 +813,7 @@ def _parse_for(t, tok, var):
 def _show_for(t):
     if t == "int":
         return "(fun (x : Int) => toString x)"
-    if t == "rat":
+    if t in ("rat", "scalar"):
         return "showRat"
     if t == ("list", "int"):
         return "showInts"
@@ -810,7 +846,7 @@ def exec_wrappers(available, known):
             lets.append(st)
             passed.append(ex)
         call = f"Gen.{name} " + " ".join(passed)
-        if spec.get("scalar") or spec.get("ones"):
+        if spec.get("scalar") or spec.get("ones") or spec.get("field"):
             call = f"Gen.{name} (α := Rat) " + " ".join(passed)
         show = _show_for(spec["ret"])
         may_raise = known[name][2]
@@ -843,6 +879,7 @@ open FastTicc
 
 SCALAR_VARS = "variable {α : Type} [Zero α] [Add α] [Sub α] [LT α] [DecidableLT α]\n"
 ONES_VARS = "variable {α : Type} [Zero α] [One α]\n"
+FIELD_VARS = "variable {α : Type} [Add α] [Sub α] [Mul α] [Div α] [LT α] [DecidableLT α] [IntCast α]\n"
 
 
 def translate_all(repo, exclude=None):
@@ -867,7 +904,9 @@ def translate_all(repo, exclude=None):
             text, may_raise = tr.translate()
             known[name] = (list(spec["params"].values()), spec["ret"], may_raise)
             text = f"/-- translated from {SRC}/{spec['file']}::{name} -/\n" + text
-            if spec.get("ones"):
+            if spec.get("field"):
+                text = "section\n" + FIELD_VARS + text + "end\n"
+            elif spec.get("ones"):
                 text = "section\n" + ONES_VARS + text + "end\n"
             elif spec.get("scalar"):
                 text = "section\n" + SCALAR_VARS + text + "end\n"
